@@ -1,8 +1,8 @@
 // Harness for C10: malformed-input campaign against sarama's REAL decoders.
 //
-//   * primitive level (differential against the Lean model svdrv_c10): every getter of realDecoder on random and
+//   - primitive level (differential against the Lean model svdrv_c10): every getter of realDecoder on random and
 //     structured buffers, push/pop of length and CRC fields, the response header, hash/crc32;
-//   * entry-point level (property oracle): every response type x version, the response header, RecordBatch /
+//   - entry-point level (property oracle): every response type x version, the response header, RecordBatch /
 //     Records / Record / MessageSet / MessageBlock / Message, consumer group member metadata / assignment and
 //     sticky assignor user data: valid encodings (built from sarama's own types and encoders) under truncation
 //     at every position, every 4/2/1-byte field position set to -1, -2, 0, huge, remainder+1, oversized varints,
@@ -255,7 +255,7 @@ func genPrimOps(n int) []string {
 					case 1:
 						lf = []byte{0xff, 0xff, 0xff, 0xff, 0xff, 0xff, 0xff, 0xff, 0xff, 0x7f}
 					case 2:
-						lf = append(putUvarint(uint64(val+1))[:0:0], putUvarint(uint64(val+1))...)
+						lf = append(putUvarint(uint64(val + 1))[:0:0], putUvarint(uint64(val+1))...)
 						lf[len(lf)-1] |= 0x80
 						lf = append(lf, 0x00) // non-canonical
 					default:
@@ -527,12 +527,12 @@ func buildSamples(perPair int, allCodecs bool) []sample {
 type entryOp struct {
 	line   string // op line for the worker
 	replay string // op line that reproduces the case together with its oracle (d / w / t line)
-	entry *entryInfo
-	ver   int16
-	kind  string // mutation kind
-	input []byte // the bytes decoded
-	trail bool   // valid + extra bytes: must be an error
-	must  string // "" or the signature prefix of a must-be-an-error case (replay line "m <entry> <ver> <hex> <prefix>")
+	entry  *entryInfo
+	ver    int16
+	kind   string // mutation kind
+	input  []byte // the bytes decoded
+	trail  bool   // valid + extra bytes: must be an error
+	must   string // "" or the signature prefix of a must-be-an-error case (replay line "m <entry> <ver> <hex> <prefix>")
 }
 
 func isPrefixBlockwise(mut, orig string) bool {
@@ -616,6 +616,11 @@ func judge(op entryOp, r opResult) {
 			// borderline allocation: the measured value includes small objects the model does not count
 			run.Count("diff-borderline-skipped")
 			return
+		case class == "err" && strings.HasPrefix(kind, "other"):
+			// an error of a semantic validation outside the byte-level model (Broker.decode: net.SplitHostPort of the
+			// decoded host) – an error is fine for the property, the model has no counterpart
+			run.Count("diff-semantic-error-skipped")
+			return
 		default:
 			switch class {
 			case "ok", "panic", "oversize":
@@ -659,11 +664,38 @@ func judgePrim(op string, r opResult) {
 		case ans == "oversize":
 			fail("prim:"+t[2]+":oversize", op, fmt.Sprintf("%d bytes allocated on a %d-byte buffer", alloc, len(t[3])/2))
 		}
+		// count getters: the value handed to the loop head that allocates from it
+		if a := strings.Fields(ans); len(a) == 3 && a[0] == "ok" {
+			n, _ := strconv.ParseInt(a[1], 10, 64)
+			off, _ := strconv.Atoi(a[2])
+			left := int64(len(t[3])/2 - off)
+			if t[3] == "-" {
+				left = 0
+			}
+			switch {
+			case t[2] == "getArrayLength" && n < -1:
+				fail("prim:getArrayLength:negative-count", op, fmt.Sprintf("returned %d without error; callers pass it to make()", n))
+			case t[2] == "getArrayLength" && n > left:
+				fail("prim:getArrayLength:unchecked-count", op, fmt.Sprintf("returned %d with %d bytes remaining", n, left))
+			case t[2] == "getStringLength" && n > left:
+				fail("prim:getStringLength:unchecked-length", op, fmt.Sprintf("returned %d with %d bytes remaining", n, left))
+			case t[2] == "getCompactArrayLength" && (n < 0 || n > left):
+				fail("prim:getCompactArrayLength:unchecked-count", op, fmt.Sprintf("returned %d with %d bytes remaining; callers pass it to make()", n, left))
+			}
+		}
 		if !strings.HasPrefix(ans, "err insufficient") {
 			run.Nontrivial(op)
 		}
 	} else if ans == "panic" {
 		fail(t[0]+":panic", op, "recovered panic")
+	} else if a := strings.Fields(ans); t[0] == "hdr" && len(a) == 4 && a[0] == "ok" {
+		// response_size_capped on the implementation: 4 < length <= MaxResponseSize, body buffer size >= 0
+		mx, _ := strconv.ParseInt(t[1], 10, 64)
+		length, _ := strconv.ParseInt(a[1], 10, 64)
+		body, _ := strconv.ParseInt(a[3], 10, 64)
+		if length <= 4 || length > mx || body < 0 || body > mx {
+			fail("hdr:size-not-capped", op, "header accepted with length "+a[1]+" (MaxResponseSize "+t[1]+"), body buffer "+a[3])
+		}
 	}
 	if t[0] == "p" {
 		run.Count("class:prim-" + strings.Fields(ans + " x")[0])
@@ -695,11 +727,20 @@ func opsForSample(s sample, budgetExtra int) []entryOp {
 			data := append(append([]byte{}, s.valid...), extra...)
 			out = append(out, entryOp{line: "d " + e.Name + " " + strconv.Itoa(int(s.version)) + " " + hx(data),
 				replay: "t " + e.Name + " " + strconv.Itoa(int(s.version)) + " " + hx(s.valid) + " " + hx(extra),
-				entry: e, ver: s.version, kind: "trailing", input: data, trail: true})
+				entry:  e, ver: s.version, kind: "trailing", input: data, trail: true})
 		}
 	}
 	for _, m := range coreMutations(s.valid) {
 		out = append(out, mk(m.kind, m.data))
+	}
+	if (e.Name == "MessageBlock" || e.Name == "MessageSet") && len(s.valid) >= 12 {
+		// the 4-byte length of the (first) message block says one byte less than is there
+		l := binary.BigEndian.Uint32(s.valid[8:12])
+		if l > 0 {
+			data := with(s.valid, 8, be32(l-1), 4)
+			out = append(out, entryOp{line: "d " + e.Name + " 0 " + hx(data), replay: "m " + e.Name + " 0 " + hx(data) + " length-mismatch-accepted",
+				entry: e, ver: 0, kind: "length-1", input: data, must: "length-mismatch-accepted"})
+		}
 	}
 	if e.Name == "Record" {
 		// the record's length varint re-encoded non-canonically (one byte longer) with value = covered bytes + 1:
